@@ -99,6 +99,7 @@ func guard(f func()) (panicked bool) {
 }
 
 type bsCase struct {
+	cut          int // -1: none; else the reader only sees the first cut bytes of the sink
 	wbuf, rbuf   int
 	sched        []int
 	wfail, rfail int
@@ -115,7 +116,7 @@ func (cs *bsCase) line() string {
 		}
 		sched = strings.Join(ss, ",")
 	}
-	fmt.Fprintf(&sb, "bs %d %d %s %d %d", cs.wbuf, cs.rbuf, sched, cs.wfail, cs.rfail)
+	fmt.Fprintf(&sb, "bs %d %d %s %d %d %d", cs.wbuf, cs.rbuf, sched, cs.wfail, cs.rfail, cs.cut)
 	for _, o := range cs.ops {
 		sb.WriteString(" ; ")
 		sb.WriteString(o.String())
@@ -209,7 +210,11 @@ func runBSCase(cs *bsCase, checkProp bool) (string, string) {
 			fail("byte image differs from the big-endian concatenation of the written bits (%d bits)", len(ref.bits))
 		}
 	}
-	src := &schedSource{data: sink.data, sched: append([]int{}, cs.sched...), rfail: cs.rfail}
+	avail := sink.data
+	if cs.cut >= 0 && cs.cut < len(avail) {
+		avail = avail[:cs.cut]
+	}
+	src := &schedSource{data: avail, sched: append([]int{}, cs.sched...), rfail: cs.rfail}
 	r, _ := bitstream.NewDefaultInputBitStream(src, uint(cs.rbuf))
 	pos := 0
 	rclosed := false
@@ -222,7 +227,7 @@ func runBSCase(cs *bsCase, checkProp bool) (string, string) {
 			p = guard(func() { v = r.ReadBit() })
 			tok = "v" + strconv.Itoa(v)
 			if !p && checkProp {
-				if pos+1 > 8*len(sink.data) {
+				if pos+1 > 8*len(avail) {
 					fail("ReadBit past the end returned a value")
 				} else if pos+1 <= len(ref.bits) && byte(v) != ref.bits[pos] {
 					fail("ReadBit at %d returned %d", pos, v)
@@ -234,7 +239,7 @@ func runBSCase(cs *bsCase, checkProp bool) (string, string) {
 			p = guard(func() { v = r.ReadBits(o.count) })
 			tok = "v" + strconv.FormatUint(v, 10)
 			if !p && checkProp {
-				if pos+int(o.count) > 8*len(sink.data) {
+				if pos+int(o.count) > 8*len(avail) {
 					fail("ReadBits(%d) past the end returned a value", o.count)
 				} else {
 					var e uint64
@@ -256,7 +261,7 @@ func runBSCase(cs *bsCase, checkProp bool) (string, string) {
 			p = guard(func() { r.ReadArray(buf, o.count) })
 			tok = "a" + hex.EncodeToString(buf)
 			if !p && checkProp {
-				if pos+int(o.count) > 8*len(sink.data) {
+				if pos+int(o.count) > 8*len(avail) {
 					fail("ReadArray(%d) past the end returned", o.count)
 				} else {
 					for i := 0; i < int(o.count); i++ {
@@ -290,8 +295,8 @@ func runBSCase(cs *bsCase, checkProp bool) (string, string) {
 					need = int(o.count)
 				}
 				if o.count <= 64 || o.kind == "ra" {
-					if pos+need <= 8*len(sink.data) && need > 0 {
-						fail("%s %d panicked at bit %d although %d bits are available", o.kind, o.count, pos, 8*len(sink.data)-pos)
+					if pos+need <= 8*len(avail) && need > 0 {
+						fail("%s %d panicked at bit %d although %d bits are available", o.kind, o.count, pos, 8*len(avail)-pos)
 					}
 				}
 			}
@@ -417,6 +422,7 @@ func init() {
 	commands["c14"] = func(c *Ctx, _ []string) { runBS(c, "c14") }
 	commands["c06bs"] = func(c *Ctx, _ []string) { runBS(c, "c06") }
 	commands["c08bs"] = func(c *Ctx, _ []string) { runBS(c, "c08") }
+	commands["c09bs"] = func(c *Ctx, _ []string) { runBS(c, "c09") }
 }
 
 func runBS(c *Ctx, mode string) {
@@ -432,7 +438,7 @@ func runBS(c *Ctx, mode string) {
 	nontrivial := 0
 	c.Stats["samples"] = []any{}
 	for i := 0; i < n; i++ {
-		cs := &bsCase{wbuf: bufs[r.Intn(len(bufs))], rbuf: bufs[r.Intn(len(bufs))]}
+		cs := &bsCase{cut: -1, wbuf: bufs[r.Intn(len(bufs))], rbuf: bufs[r.Intn(len(bufs))]}
 		wops := genWriteOps(r, cs.wbuf, 6000)
 		rops := genReadOps(r, wops, r.Intn(3) == 0)
 		ops := append([]bsOp{}, wops...)
@@ -450,6 +456,9 @@ func runBS(c *Ctx, mode string) {
 		}
 		check := true
 		switch mode {
+		case "c09":
+			// truncated byte image: the reader sees a strict prefix (cut decided after the writes)
+			cs.cut = -2
 		case "c06":
 			ns := r.Range(1, 400)
 			small := []int{1, 1, 2, 3, 5, 7, 8, 9, 13, 16, 31, 64, 100, 1000}
@@ -484,6 +493,47 @@ func runBS(c *Ctx, mode string) {
 			}
 		}
 		cs.ops = ops
+		if cs.cut == -2 {
+			cs.cut = -1
+			obs0, _ := runBSCase(cs, false)
+			total := 0
+			for _, tk := range strings.Fields(obs0) {
+				if tk[0] == 'S' {
+					total = (len(tk) - 1) / 2
+				}
+			}
+			if total > 0 {
+				cs.cut = r.Intn(total)
+				if r.Intn(3) == 0 && total > 9 {
+					cs.cut = total - 1 - r.Intn(9)
+				}
+			}
+		}
+		if mode == "c09" {
+			// keep the program up to the first read that fails (the state of an input bit
+			// stream after a panic is never used again by its owner)
+			obs0, _ := runBSCase(cs, false)
+			toks := strings.Fields(obs0)
+			nw, ri := 0, 0
+			for _, o := range ops {
+				if o.kind[0] == 'w' {
+					nw++
+				}
+			}
+			for j, o := range ops {
+				if o.kind[0] != 'r' {
+					continue
+				}
+				ti := nw + 2 + ri
+				if ti < len(toks) && toks[ti][0] == 'p' {
+					kept := append([]bsOp{}, ops[:j+1]...)
+					kept = append(kept, bsOp{kind: "rc"})
+					cs.ops, ops = kept, kept
+					break
+				}
+				ri++
+			}
+		}
 		if mode == "c08" {
 			// An output bit stream that panicked is never written to again by its owner (the
 			// Writer cancels the stream): keep only Close calls after the first failed write.
